@@ -10,7 +10,7 @@ from __future__ import annotations
 
 import ast
 
-from pv.q import text as qtext
+from pv.q import text as qtext, find_if, order_of
 from pv.model import AnalysisError, walk_no_nested, params, UNKNOWN, peel
 from pv.norm import Normalizer, Poly, single_defs
 
@@ -917,6 +917,37 @@ def rule_utf8_cuts(model, rep):
         rep.undecided(R, "<instance-count>", f"only {n} byte cuts of the secret found in _norm_digest_args, expected at least 2")
 
 
+def rule_load_before_commit(model, rep):
+    """a backend is installed (mixin classes swapped, active name recorded) only after its loader has accepted it: the loader call -- which
+    raises MissingBackendError for a backend this host does not have -- precedes every commit, unconditionally"""
+    R = "C03.o-load-before-commit"
+    fn = model.func(UH, "SubclassBackendMixin._set_backend")
+    body = [s for s in fn.body if not (isinstance(s, ast.Expr) and isinstance(s.value, ast.Constant))]
+
+    def top_index(pred):
+        return next((i for i, st in enumerate(body) if isinstance(st, ast.Expr) and isinstance(st.value, ast.Call) and pred(st.value)), None)
+    i_load = top_index(lambda c: ast.unparse(c.func) == "super()._set_backend" and [ast.unparse(a) for a in c.args] == ["name", "dryrun"])
+    commits = [i for i, st in enumerate(body) for c in ast.walk(st) if isinstance(c, ast.Call) and ast.unparse(c.func).split(".")[-1] == "update_mixin_classes"]
+    if i_load is None or len(commits) != 1:
+        rep.violation(R, site(UH, "SubclassBackendMixin._set_backend"), f"loader call at top level: {i_load}; update_mixin_classes calls: {len(commits)}",
+                      "the loader is invoked unconditionally (super()._set_backend(name, dryrun)) and the mixin swap happens once",
+                      witness="a refused backend is installed all the same")
+    else:
+        rep.check(i_load < commits[0], R, site(UH, "SubclassBackendMixin._set_backend"), f"super()._set_backend @{i_load}, update_mixin_classes @{commits[0]}",
+                  "the loader (which refuses an unavailable backend by raising) runs before the class bases are rewritten",
+                  witness="bcrypt.set_backend('builtin') is refused with MissingBackendError, yet bcrypt's bases already hold the builtin mixin: get_backend() still says "
+                          "'bcrypt' and every later hash()/verify() raises TypeError")
+    fn = model.func(UH, "BackendMixin._set_backend")
+    t = qtext(fn)
+    ok = bool(find_if(fn, "ok is False")) and "raise exc.MissingBackendError(" in str(t) and "ok = loader(**kwds)" in str(t)
+    rep.check(ok, R, site(UH, "BackendMixin._set_backend"), "ok = loader(**kwds); if ok is False: raise MissingBackendError", "a loader answering False refuses the backend by raising")
+    fn = model.func(UH, "BackendMixin.set_backend")
+    pos = order_of(fn, ["cls._set_backend(name, dryrun)", "cls.__backend = name"])
+    rep.check(None not in pos and pos[0] < pos[1], R, site(UH, "BackendMixin.set_backend"), f"_set_backend @{pos[0]}, __backend store @{pos[1]}",
+              "the active backend name is recorded only after the loader accepted the backend",
+              witness="a refused backend is reported by get_backend() although nothing was loaded")
+
+
 def run(model, rep):
     rep.explanation = __doc__
     rep.assumptions = ["bcrypt >= 5.0 raises ValueError for secrets longer than 72 bytes (documented library contract; bcrypt 5.0.0 is installed)",
@@ -928,6 +959,7 @@ def run(model, rep):
     rule_e_oscrypt(model, rep)
     rule_f(model, rep)
     rule_g(model, rep)
+    rule_load_before_commit(model, rep)
     rule_hi(model, rep)
     rule_l(model, rep)
     rule_m(model, rep)
